@@ -81,7 +81,8 @@ Print Assumptions C05_load_without_routines_is_identity.
    END_LOOP of the innermost enclosing loop -- in both cases with the evaluation stack it was entered with and with frames that
    differ at most in the dictionary of the routine in progress ([fr] forgets that dictionary and nothing else): every loop that was
    entered has been left, every call that was made has returned, nothing dangling; when it says `return` the machine stands
-   behind the call that entered the routine, the routine's loop frames and call frame gone and the stack as it was. *)
+   behind the call that entered the routine, the routine's loop frames and call frame gone and the stack cut back to where the outermost
+   loop of the routine was opened (as it was, unless names of a loop over lights were still waiting on it). *)
 From Bardolph Require Import Lang.Syntax Lang.Sem Lang.ExprCompile Lang.Simulation Lang.CallFrames Lang.Simulation3.
 
 Theorem C05_structured_control_leads_where_the_source_says :
@@ -95,6 +96,6 @@ Theorem C05_structured_control_leads_where_the_source_says :
                                         m_pc s' = m_pc s + zlength (c_stmt rt mt false after st) + a /\
                                         (m_stack s', fr s') = (m_stack s, fr s)) \/
   (exists v, sig = SigReturn v /\ exists ret F n s' evs, call_tail (m_frames s) = Some (ret, F) /\ esteps n im s = Some (s', evs) /\
-                                        m_pc s' = ret + 1 /\ m_frames s' = F /\ m_stack s' = m_stack s).
+                                        m_pc s' = ret + 1 /\ m_frames s' = F /\ m_stack s' = ret_stack (m_frames s) (m_stack s)).
 Proof. exact structured_control_leads_where_the_source_says. Qed.
 Print Assumptions C05_structured_control_leads_where_the_source_says.
